@@ -548,6 +548,7 @@ func (t *TopicEventHandler) NextPeerEvent(ctx context.Context) (PeerEvent, error
 		}
 		t.evtLogMx.Unlock()
 
+		verifPoint("topiceventhandler.next.beforeSelect")
 		select {
 		case <-t.evtLogCh:
 			continue
